@@ -230,27 +230,40 @@ theorem matchedStep_E {cfg : Cfg} {startT : Option Tree} {sn : Option (Option Na
                   simpa using this
       · simp at heq
 
-theorem doHook_E {tbl : Table} {f : F} (hf : FE tbl f) {cfg : Cfg} {v : LoopVars} {s : St}
-    {t : Tree} {s' : St} (heq : doHook env f cfg v s = (.append t, s')) : WF tbl t := by
+theorem hookLead_E {fuel : Nat} {s : St} {lead : List Tree} {s' : St}
+    (heq : hookLead env fuel s = (.ok lead, s')) : ∀ t ∈ lead, isLeafT t := by
+  unfold hookLead at heq
+  split at heq
+  · obtain ⟨new, hn, hl⟩ := addCID_E heq
+    simp at hn; subst hn; exact hl
+  · simp only [Prod.mk.injEq, Except.ok.injEq] at heq
+    rw [← heq.1]; simp
+
+theorem doHook_E {f : F} (hf : FE env.tbl f) {fuel : Nat} {cfg : Cfg} {v : LoopVars} {s : St}
+    {ts : List Tree} {s' : St} (heq : doHook env f fuel cfg v s = (.append ts, s')) :
+    WFL env.tbl ts := by
   unfold doHook at heq
   split at heq
   · split at heq
     · simp at heq
-    · rename_i sc _
+    · rename_i lead s0 h0
       split at heq
       · simp at heq
-      · simp at heq
-      · rename_i t0 s1 h1
-        simp only at heq
+      · rename_i sc _
         split at heq
-        · split at heq
-          · simp at heq
-          · split at heq
-            · simp only [Prod.mk.injEq, HookRes.append.injEq] at heq
-              have := hf sc s; rw [h1] at this
-              rw [← heq.1]; exact this t0 rfl
-            · simp at heq
         · simp at heq
+        · simp at heq
+        · rename_i t0 s1 h1
+          split at heq
+          · split at heq
+            · simp at heq
+            · split at heq
+              · simp only [Prod.mk.injEq, HookRes.append.injEq] at heq
+                have := hf sc s0; rw [h1] at this
+                rw [← heq.1]
+                exact WFL_cons.2 ⟨this t0 rfl, WFL_of_leaves (hookLead_E h0)⟩
+              · simp at heq
+          · simp at heq
   · simp at heq
 
 theorem matchedStep_rc {cfg : Cfg} {startT : Option Tree} {sn : Option (Option Name)} {i : Nat}
@@ -283,13 +296,14 @@ theorem blockLoop_E {f : F} (hf : FE env.tbl f) {cfg : Cfg} {classes : List Cls}
       exact ⟨hw, [], rfl, fun h => by cases h⟩
     · split at heq
       · simp at heq
-      · rename_i t s1 h1
+      · rename_i ts s1 h1
         have hwt := doHook_E hf h1
-        obtain ⟨hw', new, hn, hfe⟩ := ih (v := { v with rc := t :: v.rc }) ⟨hwt, hw⟩ heq
-        refine ⟨hw', new ++ [t], by simp [hn], ?_⟩
+        obtain ⟨hw', new, hn, hfe⟩ := ih (v := { v with rc := ts ++ v.rc })
+          ((WFL_append _ _ _).2 ⟨hwt, hw⟩) heq
+        refine ⟨hw', new ++ ts, by simp [hn], ?_⟩
         intro h
         obtain ⟨en, rest, hr, he⟩ := hfe h
-        exact ⟨en, rest ++ [t], by simp [hr], he⟩
+        exact ⟨en, rest ++ ts, by simp [hr], he⟩
       · split at heq
         · simp at heq
         · exact ih hw heq
